@@ -22,6 +22,7 @@ EXPLANATION = (
     "abstract interpretation: x = NaN yields exactly {NaN}; x = +-inf yields a number in {zero, pos}. (3) def-use: height and every "
     "shape parameter reach the result; is_monotonic() is True iff tsukamoto() is overridden (a computed answer needs an override); "
     "elementwise safety of every kernel (C02/V1); operators only after scalar() coercion (V8); kernels are pure functions of x and the parameters (K1)"
+    "; no division between plain numbers (no array operand in it) has a zero denominator at any valid order type (A4: Python raises where numpy yields inf); every kernel returns the broadcast shape of its operands and never reduces over, indexes away or concatenates along an operand's dimension (V9 on the shape lattice)"
 )
 ASSUMPTIONS = [
     "real arithmetic: equality with the documented closed form is decided over the reals; floating-point rounding at the ends of a support "
@@ -33,7 +34,7 @@ ASSUMPTIONS = [
 ]
 LEVEL_SCOPE = ("Decides the listed clauses for every order type (piece) over real arithmetic, reporting only definite disagreements; floating-point "
                "rounding and the clauses listed as undecided are not decided.")
-FLOORS = {"V10": 2, "K1": 20, "A1": 20, "A1b": 36, "A2": 19, "A3": 19, "D1": 20, "D2": 50, "M1": 26, "V1": 20, "V8": 19}
+FLOORS = {"V9": 100, "V10": 2, "K1": 20, "A1": 20, "A1b": 36, "A2": 19, "A3": 19, "A4": 19, "D1": 20, "D2": 50, "M1": 26, "V1": 20, "V8": 19}
 
 # positive-by-definition parameters (valid parameterisations): widths and standard deviations; slopes are non-zero
 POSITIVE = {"width", "standard_deviation", "standard_deviation_a", "standard_deviation_b"}
@@ -57,6 +58,9 @@ def run(check: Check) -> None:
 
     if not numpy_pitfalls(check, "V10", {"fuzzylite/term.py"}):
         return  # the kernels are not the elementwise expressions the interpreters assume
+    from .c02 import shapes
+
+    shapes(check, only_kernels_of=("Term",))  # V9: every kernel returns the broadcast shape of its operands and never mixes their rows / sample points
     from . import c02
 
     p = check.program
@@ -277,16 +281,29 @@ def order_type_rules(check: Check) -> None:
         short = {X: "x", H: "h", **{a: a[2] for a in params}}
         n_types = n_nanfree = n_agree = n_exact = n_exact_tried = 0
         nan_at, differs, undecided = [], [], []
+        # A4: divisions between plain numbers (no array operand anywhere in them) - Python raises ZeroDivisionError where numpy yields inf / nan,
+        # and Python evaluates them whether or not a later np.where selects the result
+        def has_array(u_: Term) -> bool:
+            return any(q == X or (q[0] == "call" and q[1][0] == "global" and q[1][1].startswith("numpy.")) for q in walk(u_))
+
+        scalar_divisions = [u_ for u_ in walk(code) if u_[0] == "binop" and u_[1] in ("/", "//", "%") and not has_array(u_[2]) and not has_array(u_[3])]
+        scalar_zero: list[tuple[str, str]] = []
         ckey = (name, code, X)
         cached = _OT_CACHE.get(ckey)
         if cached is not None:
-            n_types, n_nanfree, n_agree, n_exact, n_exact_tried, nan_at, differs, undecided = cached
-            nan_at, differs, undecided = list(nan_at), list(differs), list(undecided)
+            n_types, n_nanfree, n_agree, n_exact, n_exact_tried, nan_at, differs, undecided, scalar_zero = cached
+            nan_at, differs, undecided, scalar_zero = list(nan_at), list(differs), list(undecided), list(scalar_zero)
         for lf in (order_types(atoms, forms, valid, {X: X_GRID}) if cached is None else ()):
             n_types += 1
             ev = OrderEval(p, lf, leaf_env(lf, H))
             got = ev.ev(code)
             where = describe(lf, short)
+            for u_ in scalar_divisions:
+                den = lf.lin(u_[3])
+                # the order type comes with a concrete valid parameterisation (lf.val): a denominator that is zero there is a witness
+                if den is not None and not scalar_zero and all(lf.val[q] not in (float("inf"), float("-inf")) for q in den[0]) and \
+                        sum(c_ * lf.val[q] for q, c_ in den[0].items()) + den[1] == 0:
+                    scalar_zero.append((where, show(u_)))
             if got == Abs({NAN}):
                 nan_at.append(where)
             elif NAN not in got:
@@ -333,7 +350,13 @@ def order_type_rules(check: Check) -> None:
                 undecided.append((where, "normal forms differ but no numeric difference at the witness"))
         if n_types == 0:
             raise AnalysisError(f"{name}: no order type enumerated")
-        _OT_CACHE[ckey] = (n_types, n_nanfree, n_agree, n_exact, n_exact_tried, tuple(nan_at), tuple(differs), tuple(undecided))
+        _OT_CACHE[ckey] = (n_types, n_nanfree, n_agree, n_exact, n_exact_tried, tuple(nan_at), tuple(differs), tuple(undecided), tuple(scalar_zero))
+        check.require(not scalar_zero, "A4", f"{name}.membership/scalar-division",
+                      f"{name}: no division between plain numbers has a zero denominator at a valid order type ({len(scalar_divisions)} such divisions, {n_types} order types)"
+                      if not scalar_zero else f"{name}: at `{scalar_zero[0][0]}` (valid parameters) `{scalar_zero[0][1][:80]}` divides one plain number by another that is zero: "
+                      "with parameters given as Python numbers this raises ZeroDivisionError whatever np.where selects afterwards (the same division with the array "
+                      "operand inside yields inf / nan that is discarded)", loc(fn), {"scalar_divisions": len(scalar_divisions), "order_types": n_types},
+                      exhaustive=True, cases=n_types)
         if name in NAN_BY_DESIGN and nan_at:
             check.notes.append(f"A2 {name}: NaN at {len(nan_at)} order types - {NAN_BY_DESIGN[name]}")
             nan_at = []
